@@ -232,6 +232,9 @@ func run() (code int) {
 		fmt.Println("golden table written to", *flagGolden)
 		return 0
 	}
+	if *flagMatrix {
+		return matrixRun(vd)
+	}
 	prop := properties[*flagProperty]
 	if prop == nil {
 		fmt.Printf("unknown or unclaimed property %q\n", *flagProperty)
@@ -534,6 +537,79 @@ func replay(vd, path string) int {
 }
 
 // ---- MANIFEST generation (maintenance: `icecheck -manifest > MANIFEST.json`) ----
+
+var flagMatrix = flag.Bool("matrix", false, "maintenance: load -repo once, evaluate every claimed property (quick tier, no controls, no evidence) and print one line per property")
+
+// matrixRun: the corpus tools run hundreds of patched trees against every
+// property; loading the program once per tree instead of once per property
+// makes that affordable.  Output format: "<id> rc=<0|1|2> violations=<n> <RULE@func> ...".
+func matrixRun(vd string) int {
+	c, err := loadCtx(loadOpts{dir: *flagRepo, rootPath: rootPkgPath, config: "default"})
+	var ids []string
+	for id := range properties {
+		ids = append(ids, id)
+	}
+	sort.Strings(ids)
+	if err != nil {
+		for _, id := range ids {
+			fmt.Printf("%s rc=2 violations=0 INFRA: %v\n", id, err)
+		}
+		return 2
+	}
+	known, _ := loadKnown(filepath.Join(vd, "known_findings.txt"))
+	worst := 0
+	for _, id := range ids {
+		func() {
+			defer func() {
+				if p := recover(); p != nil {
+					fmt.Printf("%s rc=2 violations=0 INFRA: %v\n", id, p)
+					worst = 2
+				}
+			}()
+			prop := properties[id]
+			res := evalProperty(c, prop)
+			n := 0
+			seen := map[string]bool{}
+			var rules []string
+			for _, o := range res.all {
+				if o.st == Discharged {
+					continue
+				}
+				matched := false
+				for _, k := range known {
+					if k.Property == prop.ID && k.Rule == o.Rule && o.Key == k.Rule+"/"+k.Construct {
+						matched = true
+					}
+				}
+				if matched {
+					continue
+				}
+				n++
+				tag := o.Rule + "@" + o.Func
+				if !seen[tag] {
+					seen[tag] = true
+					rules = append(rules, tag)
+				}
+			}
+			for range res.extraViolations {
+				n++
+			}
+			if len(res.extraViolations) > 0 {
+				rules = append(rules, "FLOOR/EXTRA")
+			}
+			sort.Strings(rules)
+			rc := 0
+			if n > 0 {
+				rc = 1
+				if worst < 1 {
+					worst = 1
+				}
+			}
+			fmt.Printf("%s rc=%d violations=%d %s\n", id, rc, n, strings.Join(rules, " "))
+		}()
+	}
+	return worst
+}
 
 var flagSigs = flag.Bool("sigs", false, "print the extracted wire signatures (debug)")
 var flagManifest = flag.Bool("manifest", false, "print MANIFEST.json generated from the property table")
